@@ -271,46 +271,80 @@ def suffix_table(ctx, b):
     return out, sites
 
 
+def _notation_leaf(suf):
+    """leaf assignment for the literal readers: the line has a decimal / price part that parses (value 1.0) and a NOTATION
+    group whose text is `suf`; no based literal"""
+    def group_of(e):
+        for x in walk(e):
+            if x[0] == 'call' and re.search(r'Captures::<.*>::name$|Captures::name$', x[1]) and len(x[2]) == 2:
+                return model.const_str(x[2][1])
+        return None
+
+    def leaf(body, e):
+        e0 = strip(e)
+        if e0[0] == 'call':
+            if re.search(r'PartialEq.*::eq$', e0[1]) and len(e0[2]) == 2:
+                lits = [model.const_str(x) for x in e0[2]]
+                if any(l is not None for l in lits) and any(model.const_str(x) is None and group_of(x) == 'NOTATION' for x in e0[2]):
+                    return int([l for l in lits if l is not None][0] == suf)
+            if re.search(r'Match::<.*>::end$|Match::end$', e0[1]):
+                return 'end:%s' % group_of(e0)
+        if e0[0] == 'discr':
+            x = strip(e0[1])
+            if x[0] == 'call' and re.search(r'Captures::<.*>::name$|Captures::name$', x[1]):
+                g = model.const_str(x[2][1]) if len(x[2]) == 2 else None
+                return {'NOTATION': 1, 'DECIMAL': 1, 'PRICE': 1, 'CURRENCY': 1}.get(g, 0)
+            if x[0] == 'call' and re.search(r'::parse$|FromStr', x[1]):
+                return 0
+        if e0[0] == 'field' and e0[1][0] == 'downcast' and e0[1][2] == 'Ok':
+            x = strip(e0[1][1])
+            if x[0] == 'call' and re.search(r'::parse$|FromStr', x[1]):
+                return 1.0
+        return None
+    return leaf
+
+
+def suffix_factors(ctx, b, kind):
+    """{suffix: set of feasible factors} of a literal reader: the value operand of its TokenType::<kind> construction,
+    evaluated (E6b) for a literal whose digits parse to 1.0 and whose NOTATION group is the suffix. Works for a `match`, a
+    const table searched with find / find_map (unfolded by E0b) and a helper function (spliced or inlined)."""
+    from ..evalint import feasible_values
+    aggs = [s for i in b.normal_blocks for s in b.blocks[i]['stmts'] if s['k'] == 'assign' and s['rv'] == 'aggr' and s['adt'] == 'types::TokenType::' + kind]
+    if not aggs:
+        raise AnchorLost('%s: no TokenType::%s construction found' % (fn_key(b.path), kind))
+    out = {}
+    for suf in list(spec.SUFFIX) + ['q']:
+        vals = set()
+        for s in aggs:
+            for v, a in feasible_values(b, b.expr(s['ops'][0]), _notation_leaf(suf)):
+                vals.add(v if isinstance(v, (int, float)) else None)
+        out[suf] = vals
+    return out, aggs[0]['loc']
+
+
 def g5_suffixes(ctx):
     """G5 the suffix tables of the number and the money reader agree with each other and with 1000^k"""
     ctx.rule('G5', 'magnitude suffix tables', floor=16)
     tabs = {}
-    for name, rx in (('number', r'regex_tokinizer::number::number_regex_parser$'), ('money', r'regex_tokinizer::money::money_regex_parser$')):
+    for name, rx, kind in (('number', r'regex_tokinizer::number::number_regex_parser$', 'Number'), ('money', r'regex_tokinizer::money::money_regex_parser$', 'Money')):
         b = ctx.facts.one(rx)
         ctx.fn(b)
-        t, sites = suffix_table(ctx, b)
-        if len(t) < len(spec.SUFFIX):
-            # the table may live in a private helper of the reader (extract-method): look one and two calls down
-            seen_h = set()
-            frontier = [b.path]
-            for _ in range(2):
-                nxt = []
-                for pth in frontier:
-                    for (y, kind) in sorted(ctx.cg.edges.get(pth, ())):
-                        if kind == 'direct' and y not in seen_h and y in ctx.facts.bodies and ctx.facts.bodies[y].file.startswith('src/tokinizer/'):
-                            seen_h.add(y)
-                            nxt.append(y)
-                            hb = ctx.facts.bodies[y]
-                            t2, s2 = suffix_table(ctx, hb)
-                            if t2 and str(hb.locals.get(0, '')) == 'f64':
-                                ctx.fn(hb)
-                                for k_, v_ in t2.items():
-                                    t.setdefault(k_, v_)
-                                    sites.setdefault(k_, s2[k_])
-                frontier = nxt
-        tabs[name] = t
+        t, site = suffix_factors(ctx, b, kind)
+        tabs[name] = {k: tuple(sorted(v, key=repr)) for k, v in t.items()}
         for suf, want in spec.SUFFIX.items():
-            if suf not in t:
-                ctx.finding('G5', '%s/%s/missing' % (name, suf), 'the %s reader has no factor for suffix %r' % (name, suf), site=b.loc)
-            elif t[suf] != want:
-                ctx.finding('G5', '%s/%s/factor' % (name, suf), 'the %s reader scales suffix %r by %r; the statement says %r' % (name, suf, t[suf], want), site=sites[suf])
+            got = t.get(suf, set())
+            if got == {want}:
+                ctx.ok('G5', '%s reader: %r -> %g' % (name, suf, want), 'gamma', site=site, sample=False)
+            elif got == {1.0}:
+                ctx.finding('G5', '%s/%s/missing' % (name, suf), 'the %s reader has no factor for suffix %r (the literal keeps its value)' % (name, suf), site=site)
+            elif None in got or not got:
+                ctx.finding('G5', '%s/%s/not-extractable' % (name, suf), 'the factor the %s reader applies for suffix %r could not be evaluated from its value term' % (name, suf), site=site)
             else:
-                ctx.ok('G5', '%s reader: %r -> %g' % (name, suf, want), 'gamma', site=sites[suf], sample=False)
-        for suf in t:
-            if suf not in spec.SUFFIX:
-                ctx.note('G5: the %s reader also knows suffix %r (x %g), which the statement does not list' % (name, suf, t[suf]))
-    if tabs['number'] != tabs['money']:
-        ctx.finding('G5', 'siblings-disagree', 'number and money readers scale suffixes differently: %s' % sorted(set(tabs['number'].items()) ^ set(tabs['money'].items())))
+                ctx.finding('G5', '%s/%s/factor' % (name, suf), 'the %s reader scales suffix %r by %s; the statement says %r' % (name, suf, sorted(got), want), site=site)
+        if t.get('q') not in ({1.0}, None) and None not in t.get('q', set()):
+            ctx.note('G5: the %s reader scales an unknown suffix letter by %s' % (name, sorted(t['q'])))
+    if {k: v for k, v in tabs['number'].items() if k != 'q'} != {k: v for k, v in tabs['money'].items() if k != 'q'}:
+        ctx.finding('G5', 'siblings-disagree', 'number and money readers scale suffixes differently: %s' % sorted(set(tabs['number'].items()) ^ set(tabs['money'].items()), key=repr))
     # data table (deserialised only): note
     for lang, l in ctx.config.languages.items():
         nn = l.get('number_notation', {})
@@ -669,7 +703,7 @@ def g11_suffix_claimed(ctx):
                 if x[0] == 'call' and re.search(r'Captures::<.*>::name$|Captures::name$', x[1]):
                     g = model.const_str(x[2][1]) if len(x[2]) == 2 else None
                     return {'NOTATION': 1, 'DECIMAL': 1}.get(g, 0)
-                if x[0] == 'call' and re.search(r'str::parse|FromStr', x[1]):
+                if x[0] == 'call' and re.search(r'::parse$|FromStr', x[1]):
                     return 0
             return None
         vals = set()
